@@ -70,3 +70,29 @@ REG.lemma("C05_other_pairs_are_nodes_2", params=_PX, requires=[],
                    "G_or_r(g, S, O, dep_of(n, p)) and cross_layer(L, dep_of(n, p)))))"], cases=["subj"], properties=P)
 REG.lemma("C05_forbidden_other_nodes", params=_PP, requires=_HY,
           ensures=["N_cross_other(g, L, S, O, subj) == D_other(g, L, A, Bs, subj)"], cases=["subj"], properties=P)
+
+# missing 'other' access (should ... except, should_only ... except): reported iff the rule names an object and NO import leaves A for something outside the object layers
+_PO = dict(_PP, objs="Bag[Filter]")
+REG.lemma("C05_missing_other", params=_PO, requires=_HY,
+          ensures=["(exists(Dep, lambda x: G_layer_missing_f(g, S, O, objs, L, x)) if subj else exists(Dep, lambda x: G_layer_missing_r(g, S, O, objs, L, x))) == "
+                   "(nonempty(objs) and not D_other(g, L, A, Bs, subj))"],
+          use=["C05_forbidden_other(g, L, A, Bs, S, O, subj)"], opaque=["G_or_f", "G_or_r", "D_other", "lay_in"], cases=["subj"], properties=P)
+# the verdict of the shapes that do not need 'missing access': violation (some bucket of layer_FV_post non-empty)  <=>  the documented layer semantics is violated
+REG.macro("layer_viol_G4", ["g", "S", "O", "objs", "subj", "b", "L"],
+          "(b.should_not and (not b.behavior_exception) and exists(Dep, lambda x: G_realised_b(g, S, O, subj, x) and cross_layer(L, x))) or "
+          "(b.should and b.behavior_exception and (exists(Dep, lambda x: G_layer_missing_f(g, S, O, objs, L, x)) if subj else exists(Dep, lambda x: G_layer_missing_r(g, S, O, objs, L, x)))) or "
+          "(b.should_only and b.behavior_exception and ((exists(Dep, lambda x: G_layer_missing_f(g, S, O, objs, L, x)) if subj else exists(Dep, lambda x: G_layer_missing_r(g, S, O, objs, L, x))) or "
+          "   exists(Dep, lambda x: G_realised_b(g, S, O, subj, x) and cross_layer(L, x)))) or "
+          "(b.should_not and b.behavior_exception and (exists(Dep, lambda x: G_or_f(g, S, O, x) and cross_layer(L, x)) if subj else exists(Dep, lambda x: G_or_r(g, S, O, x) and cross_layer(L, x))))")
+REG.macro("layer_viol_D4", ["g", "L", "A", "Bs", "objs", "subj", "b"],
+          "(b.should_not and (not b.behavior_exception) and exists(LayerName, lambda B: (B in Bs) and D_access(g, L, A, B, subj))) or "
+          "(b.should and b.behavior_exception and nonempty(objs) and not D_other(g, L, A, Bs, subj)) or "
+          "(b.should_only and b.behavior_exception and ((nonempty(objs) and not D_other(g, L, A, Bs, subj)) or exists(LayerName, lambda B: (B in Bs) and D_access(g, L, A, B, subj)))) or "
+          "(b.should_not and b.behavior_exception and D_other(g, L, A, Bs, subj))")
+REG.lemma("C05_verdict_is_documented_layer_semantics", params=dict(_PO, b="BehaviorRequirement"),
+          requires=_HY + ["not ((b.should or b.should_only) and not b.behavior_exception)"],
+          ensures=["layer_viol_G4(g, S, O, objs, subj, b, L) == layer_viol_D4(g, L, A, Bs, objs, subj, b)"],
+          use=["C05_forbidden_access(g, L, A, Bs, S, O, subj)", "C05_forbidden_other(g, L, A, Bs, S, O, subj)", "C05_missing_other(g, L, A, Bs, S, O, subj, objs)"],
+          opaque=["G_realised_b", "G_or_f", "G_or_r", "G_layer_missing_f", "G_layer_missing_r", "D_access", "D_other", "lay_in"], cases=["subj"], properties=P,
+          note="8 of the 12 shapes (should_not, should ... except, should_only ... except, should_not ... except; access / be accessed by); 'should' and 'should_only' without except need the "
+               "missing-access lemma (not proved here) and the two 'any layer' aliases make the subject layer its own object (outside lay_hyp): those stay with the bounded stand-in")
